@@ -49,6 +49,12 @@ def run_case(run, drv, rng, case_seed):
                               m["files"], m["pl"], m["single"], m["name"], m["raw"], opts=m["opts"])
         nlayers = len(meta.get(b"piece layers", {})) if isinstance(meta, dict) else 0
         added = False
+        if rng.random() < 0.3:
+            # the user reaches the metafile through a symbolic link
+            link = os.path.join(box, "link-to-meta.torrent")
+            os.symlink(m["path"], link)
+            m["path"] = link
+            case["via_symlink"] = True
         for step in range(rng.randrange(0, 7)):
             req = gen_request(rng)
             before = refspec.lenient_decode(open(m["path"], "rb").read())
